@@ -89,7 +89,9 @@ def make_crystal(rng):
         for k, nm in enumerate(names):
             z, p = TEMPLATES[nm]
             perm = list(range(len(z)))
-            if rng.random() < 0.6:
+            if nm == "rod" and rng.random() < 0.5:
+                perm.reverse()                    # the first-listed (root) atom is at the far end: the centre of mass lies cells away from it
+            elif rng.random() < 0.6:
                 rng.shuffle(perm)                 # listing order is not parent-before-child
             z, p = [z[i] for i in perm], [p[i] for i in perm]
             o = np.array([rng.uniform(-1.3, 2.3) if rng.random() < 0.3 else rng.uniform(-0.3, 1.3) for _ in range(3)]) @ np.asarray(uc.direct)
@@ -123,7 +125,22 @@ def make_crystal(rng):
             cart += list(P)
             owner += [k] * len(z)
         cart = np.array(cart)
-        c = Crystal(uc, sg, AsymmetricUnit([Element[z] for z in zs], uc.to_fractional(cart)))
+        # site labels as users supply them (PDB-style: the same label set repeated for every copy of a molecule), and site occupancies
+        # (a half-occupied solvent molecule): neither changes which atoms are bonded or which molecule is an image of which
+        extra = {}
+        style = rng.choice(["default", "default", "per-molecule", "occupancy", "both"])
+        if style in ("per-molecule", "both"):
+            cnt = {}
+            labs = []
+            for a, z in enumerate(zs):
+                kk = (owner[a], z)
+                cnt[kk] = cnt.get(kk, 0) + 1
+                labs.append(f"{Element[z].symbol}{cnt[kk]}")
+            extra["labels"] = labs
+        if style in ("occupancy", "both"):
+            occ_of = [rng.choice([1.0, 0.5, 0.5, 0.35]) for _ in names]
+            extra["occupation"] = [occ_of[o] for o in owner]
+        c = Crystal(uc, sg, AsymmetricUnit([Element[z] for z in zs], uc.to_fractional(cart), **extra))
         # intermolecular contacts must be clearly longer than the bonding threshold
         try:
             slab = c.slab(bounds=((-1, -1, -1), (1, 1, 1)))
